@@ -74,14 +74,28 @@ theorem matchNum_none_sep (c : Char) (rest r : Str) (hrest : rest.all isIdc = tr
     simp only [matchNum, List.cons_append]
     split <;> simp_all [matchFrac, countWhile]
 
+theorem Sep.folG {r : Str} (h : Sep r) : FolG r := by
+  intro x r' e
+  have f := h.facts x r' e
+  obtain ⟨_, h2, h3, _⟩ := f.ne
+  exact ⟨f.notIdc, h2, h3⟩
+
 theorem step_word_sep (c : Char) (rest r : Str) (hc : isAlpha c = true) (hrest : rest.all isIdc = true)
-    (hnum : (c = 'i' ∨ c = 'f' ∨ c = 'd') → ∀ a rest', rest = a :: rest' → isDigit a = false) (hr : Sep r) :
+    (hnum : NumFree c rest) (hr : Sep r) :
     step (c :: rest ++ r) = some (some (wordOf (c :: rest)), r) := by
   have h1 := alpha_not_white hc
   have h2 : c ≠ '/' := toNat_ne (by rcases alpha_range hc with ⟨a, b⟩ | ⟨a, b⟩ <;> simp <;> omega)
   have hcw := countWhile_append isIdc rest r hrest hr.notIdc
-  have hw : stepWord c (rest ++ r) = (wordOf (c :: rest), r) := by
+  have hold : ((c = 'i' ∨ c = 'f' ∨ c = 'd') → ∀ a rest', rest = a :: rest' → isDigit a = false) →
+      stepWord c (rest ++ r) = (wordOf (c :: rest), r) := by
+    intro hnum
     simp only [stepWord, matchNum_none_sep c rest r hrest hnum hr, wordTok, wordOf, hcw, List.take_left', List.drop_left']
+  have hw : stepWord c (rest ++ r) = (wordOf (c :: rest), r) := by
+    by_cases hg : c = 'i' ∨ c = 'f' ∨ c = 'd'
+    · rcases hnum hg with ho | ⟨a, w, r0, rfl, ha, h0⟩
+      · exact hold (fun _ => ho)
+      · exact stepWord_short c a w r0 r hrest ha h0 hr.folG
+    · exact hold (fun h => absurd h hg)
   simp only [List.cons_append, step, h1, hc, hw]
   simp [h2]
 
@@ -415,7 +429,7 @@ theorem ptok_step {t : Tok} {w : Str} (h : PTok t w) {r : Str} (hr : Sep r) (hsl
   cases h with
   | kw w h =>
     obtain ⟨hk, c, rest, rfl, hc, hrest, hnum, _⟩ := h
-    have := step_word_sep c rest r hc hrest hnum hr
+    have := step_word_sep c rest r hc hrest (NumFree.old hnum) hr
     simp only [wordOf, hk, if_true] at this
     exact this
   | ident n h =>
